@@ -22,7 +22,7 @@ func nativeReplay(pkgDir string, replayPath string, label string, kind string) (
 	defer os.RemoveAll(tmp)
 	harnessDir := filepath.Join(verifDir, "harness")
 	repl := map[string]string{}
-	files, _ := filepath.Glob(filepath.Join(harnessDir, pkgDir, "*.go"))
+	files, _ := filepath.Glob(filepath.Join(harnessDir, harnessSubdir(pkgDir), "*.go"))
 	for _, f := range files {
 		repl[filepath.Join(repoDir, pkgDir, filepath.Base(f))] = f
 	}
